@@ -41,8 +41,10 @@ def model_for(ident, role):
         P = ident
     else:
         I = ident
+    # the intermediate sits at depth 2 (depends on another intermediate) and its users depend otherwise only on
+    # states / parameters, so a wrong ordering or a captured name changes numbers
     return (f"parameters(a=0.5, {P}=2.0)\nstates(x=1.0, {S}=3.0)\n"
-            f"{I} = a*x + {S}*{P}\ndx_dt = -{I} + {P}*x\nd{S}_dt = x - {S}*a + {I}*t\n")
+            f"h0 = a*x\n{I} = h0 + {S}*{P}\ndx_dt = -{I} + {P}*x\nd{S}_dt = x - {S}*a + {I}*t\n")
 
 
 def tasks(tier, seed):
